@@ -187,6 +187,101 @@ CLAIMED = {
         "equal the hashes of the held tasks, every task must be found under its full name, and "
         "wrapper chains must point to registered inner tasks in the wrapper namespace.",
         "Single-threaded module imports.", "DESIGN.md §4 C37"),
+    "C04": (
+        "histsim", "exploration",
+        "deterministic simulation: seeded run / environment-operation histories on a real tmpfs "
+        "with a simulated mtime clock, shadow filesystem oracle (replay implies valid)",
+        "Workflows writing and returning File / ContentFile / IFile / Dir / FileSet / ContentDir / "
+        "IDir values are executed 2-4 times on one backend with deletes, truncations, rewrites, "
+        "re-creations and member changes in between; a task that was replayed must have had "
+        "unchanged outputs (by the class's notion of validity), no execution may raise, returned "
+        "values must be valid and hold the bytes the task writes.",
+        SIM_NOTE + " Local filesystem only.", "DESIGN.md §4 C04"),
+    "C05": (
+        "schedsim", "exploration",
+        "deterministic simulation: seeded schedules and execution histories with differing "
+        "contexts, refinement against the reference interpreter",
+        "Programs calling the same context-reading task with identical arguments under different "
+        "update_context overrides and under none (siblings, seq barriers, different parents, "
+        "full and shallow validity), 1-3 executions on one backend with differing run contexts; "
+        "each outcome must equal the reference interpreter's.",
+        SIM_NOTE, "DESIGN.md §4 C05"),
+    "C16": (
+        "procsim", "exploration",
+        "several interpreter nodes with seeded PYTHONHASHSEED and insertion orders must agree on "
+        "value hashes (environment nondeterminism, no schedule)",
+        "Batches of 400 generated values are rebuilt in 3 fresh interpreter processes with "
+        "different hash seeds and set insertion orders; all nodes must compute the same "
+        "TypeRegistry hash.",
+        "Thinnest use of the technique: the nondeterminism is the interpreter's hash seed.",
+        "DESIGN.md §4 C16"),
+    "C21": (
+        "schedsim", "exploration",
+        "deterministic simulation: seeded schedules, recorded Argument / ArgumentResult rows "
+        "checked against the reference interpreter's must/may dataflow sets",
+        "For every call first recorded in a run, argument rows must equal what the task received "
+        "(positions, keys, value hashes, defaults as keywords) and each argument's upstream links "
+        "must contain the calls that flow into it and only calls evaluated within its expression.",
+        SIM_NOTE + " Schedule dimension incidental.", "DESIGN.md §4 C21"),
+    "C23": (
+        "histsim", "exploration",
+        "two simulated repositories exchanging records: partial, repeated (duplicated) and "
+        "batched transfers, row-level comparison and cache containment on the destination",
+        "Repository A gets 1-3 simulated executions plus a tag edit history; subsets of its "
+        "executions are pushed to B once, again, then the rest; reachable records must arrive "
+        "equal, B must never hold what A lacks, repeats must add nothing, and an edited program "
+        "run on B must equal its run on an empty backend.",
+        SIM_NOTE + " Interrupted transfers are not injected.", "DESIGN.md §4 C23"),
+    "C26": (
+        "schedsim", "exploration",
+        "deterministic simulation: seeded schedules, refinement against the reference "
+        "interpreter's context rules",
+        "Job trees with nested update_context overrides, configured + run() contexts and "
+        "get_context over dotted paths in bodies and defaults; the outcome must equal the "
+        "reference interpreter's (every call carries a unique argument so nothing is shared).",
+        SIM_NOTE + " Schedule dimension incidental.", "DESIGN.md §4 C26"),
+    "C27": (
+        "schedsim", "exploration",
+        "deterministic simulation: seeded schedules, option dict observed at executor hand-off "
+        "checked against the reference interpreter's precedence model",
+        "Job trees with marker options at definition / export / call level (both chaining orders, "
+        "expression-valued options, prov=False, run(cache=False)); the options each job is handed "
+        "off with must be among those the reference computes for that (task, arguments).",
+        SIM_NOTE + " Schedule dimension incidental.", "DESIGN.md §4 C27"),
+    "C28": (
+        "histsim", "exploration",
+        "deterministic simulation: backend histories (incl. a crashed execution), dry run, then a "
+        "real run on a copy of the backend; zero hand-off / zero execution monitors",
+        "On empty, fully cached, partially cached (killed execution) and edited backends a dry "
+        "run must hand nothing to executors and call no task function; if it completes the real "
+        "run returns the same, if it stops early the real run executes at least one function.",
+        SIM_NOTE, "DESIGN.md §4 C28"),
+    "C32": (
+        "procsim", "exploration",
+        "scheduler node and worker nodes exchanging scratch files; seeded element order, retries "
+        "and stale files; results compared with local calls",
+        "Jobs are prepared in single and array form with the real scratch helpers, worker nodes "
+        "run the real oneshot entry point in a seeded order (some twice), results and errors read "
+        "back must equal a local call, elements must only touch their own files, and job names "
+        "must round-trip their hashes.",
+        "Workers run in-process; no container or cloud service.", "DESIGN.md §4 C32"),
+    "C33": (
+        "histsim", "exploration",
+        "databases produced by simulated executions incl. one killed at a seeded commit; status "
+        "filters compared with displayed statuses",
+        "On databases with RUNNING (left by a crash), CACHED, FAILED, CSE-failed and DONE jobs the "
+        "result of every job / execution status filter must equal the set of rows displaying "
+        "that status.",
+        SIM_NOTE, "DESIGN.md §4 C33"),
+    "C38": (
+        "schedsim", "exploration",
+        "deterministic simulation: parent and sub-schedulers (built by the real subrun task) all "
+        "under the simulator on one SQLite file; refinement against direct evaluation",
+        "Programs with sub-expressions wrapped in subrun (thread/process executor, new or extended "
+        "execution, cache options), executed twice; outcome must equal the reference "
+        "interpreter's, sub-jobs must hang under the calling job when the execution is extended, "
+        "and the subrun task must never be served from the single-reduction cache.",
+        SIM_NOTE + " Parent/child loops are not interleaved with each other.", "DESIGN.md §4 C38"),
 }
 
 NOT_APPLICABLE = {
